@@ -54,6 +54,7 @@ class CaseTimeout(BaseException):
 
 # what the implementation is currently running (for the hard-hang exit below)
 _RUNNING: dict = {"pid": None, "case": None, "seed": 0, "tier": "quick", "done": 0}
+MAX_HANGS = 4          # stop running further cases once this many have hung
 HARD_HANG_AFTER = 6  # further timer firings (1 s apart) after the first CaseTimeout was swallowed
 
 
@@ -564,7 +565,19 @@ def run_spec(spec: Spec, tier: str, seed: int, replay: Optional[str] = None) -> 
             seen.add(h)
             uniq.append(c)
     cases = uniq
-    impl_obs = [safe_impl(spec, c) for c in cases]
+    # run the implementation; a few hangs are enough evidence — do not wait case_timeout for hundreds of cases
+    impl_obs = []
+    hangs = 0
+    for c in cases:
+        o = safe_impl(spec, c)
+        impl_obs.append(o)
+        if o == "HANG":
+            hangs += 1
+            if hangs >= MAX_HANGS:
+                break
+    if len(impl_obs) < len(cases):
+        ctx.say(f"[{pid}] {hangs} cases hung; the remaining {len(cases) - len(impl_obs)} cases were not run")
+        cases = cases[:len(impl_obs)]
 
     # 3. oracle on the implementation (always) ----------------------------------------------
     failures: list[Failure] = []
